@@ -372,7 +372,7 @@ Definition not_match (rec : recfn) (p : pat) (r : val) (m : mstate) : res mstate
 
 Definition ta_match (rec : recfn) (k : string) (arg : pat) (r : val) (m : mstate) : res mstate :=
   let after (rv : val) (m1 : mstate) :=
-    match o_ta orc k arg rv with
+    match o_ta orc k rv with
     | None => RDone false VNil m1
     | Some (resv, None) => RDone true resv m1
     | Some (resv, Some sv) =>
@@ -531,7 +531,7 @@ Definition s_not (rec : srecfn) (p : pat) (r : val) (s : state) : res state :=
 
 Definition s_ta (rec : srecfn) (k : string) (arg : pat) (r : val) (s : state) : res state :=
   let after (rv : val) (s1 : state) :=
-    match o_ta orc k arg rv with
+    match o_ta orc k rv with
     | None => RDone false VNil s
     | Some (resv, None) => RDone true resv s1
     | Some (resv, Some sv) =>
